@@ -168,4 +168,154 @@ theorem layout_disjoint (o : Obj) (os : OStream) (r : SaveRes) (hdr : Bytes)
     exact hP'.disj k1 k2 a b hne h1 h2 hp1 hp2 ha hb
   · have := hP'.le; omega
 
+/-! ### writer domain: one segment of `layout_segments_and_their_sections`
+
+`lay`, `g`: layout state and segment (after `calc_segment_alignment`) when the segment's turn comes;
+`lay'`, `g'`: afterwards.  "Generated by this segment": `lay.gen[k] ≠ true`, `lay'.gen[k] = true`.
+Hypotheses: the invariant `LayInv` (which the previous segments maintain, `wsd_monotone`), no wrap
+(`segNW`) and the writer-domain side conditions `segDom cov ins` (Lemmas/Layout.lean):
+every non-NULL member counts towards the memory size (SHF_ALLOC, not a TLS NOBITS section outside
+PT_TLS), the memory size neither wraps nor exceeds the class's field, writer-assigned addresses
+fit the field; `cov`: a not yet generated member with an explicit address is a non-empty
+file-occupying section (`NobitsAtCursor`, excludes F14); `ins`: a not yet generated NOBITS member
+needs no alignment gap (cf. F13). -/
+
+/-- the segment's memory size covers its file size -/
+theorem memsz_ge_filesz (c : Cls) (hdrPhoff : BitVec 64) (phentsize phnum : BitVec 16)
+    (lay lay' : Layout) (g g' : Seg) (lo : Nat) (hinv : LayInv lo lay)
+    (hnw : segNW c hdrPhoff phentsize phnum lay g = true)
+    (hdom : segDom false false c hdrPhoff phentsize phnum lay g = true)
+    (h : layoutSegment c hdrPhoff phentsize phnum lay g = .ok (some (lay', g'))) :
+    g'.filesz.toNat ≤ g'.memsz.toNat :=
+  (layoutSegment_dom false false c hdrPhoff phentsize phnum lay lay' g g' lo hinv hnw hdom h).1
+
+/-- a file-occupying member generated by the segment is at the same distance from the segment start
+    in the file as in memory (64-bit arithmetic, exact) -/
+theorem member_equidistant (c : Cls) (hdrPhoff : BitVec 64) (phentsize phnum : BitVec 16)
+    (lay lay' : Layout) (g g' : Seg) (lo : Nat) (hinv : LayInv lo lay)
+    (hnw : segNW c hdrPhoff phentsize phnum lay g = true)
+    (hdom : segDom false false c hdrPhoff phentsize phnum lay g = true)
+    (h : layoutSegment c hdrPhoff phentsize phnum lay g = .ok (some (lay', g')))
+    (k : Nat) (s' : SecBuf) (hng : lay.gen[k]? ≠ some true) (hg : lay'.gen[k]? = some true)
+    (hs : lay'.secs[k]? = some s') (ho : s'.Occ) :
+    s'.offset - g'.offset = s'.addr - g'.vaddr :=
+  (layoutSegment_dom false false c hdrPhoff phentsize phnum lay lay' g g' lo hinv hnw hdom h).2.1 k s' hng hg hs ho
+
+/-- a segment that starts a fresh run (not the PHDR / offset-0 special cases, first member not yet
+    generated): `p_offset ≡ p_vaddr (mod p_align)`.  The 64-bit wrap in
+    `adjustment = req_page_alignment − cur_page_alignment` is harmless: `(align + adjustment) % align`
+    is the same residue (alignment ≤ 2^63, true for every power of two). -/
+theorem segment_congruent (c : Cls) (hdrPhoff : BitVec 64) (phentsize phnum : BitVec 16)
+    (lay lay' : Layout) (g g' : Seg) (lo : Nat) (hinv : LayInv lo lay)
+    (hnw : segNW c hdrPhoff phentsize phnum lay g = true)
+    (hdom : segDom false false c hdrPhoff phentsize phnum lay g = true)
+    (h : layoutSegment c hdrPhoff phentsize phnum lay g = .ok (some (lay', g')))
+    (hfresh : segFresh lay g) (hal : g.align.toNat ≤ 9223372036854775808) :
+    g'.offset.toNat % (max g'.align.toNat 1) = g'.vaddr.toNat % (max g'.align.toNat 1) :=
+  ((layoutSegment_dom false false c hdrPhoff phentsize phnum lay lay' g g' lo hinv hnw hdom h).2.2 hfresh).1 hal
+
+/-- the memory size covers every (non-NULL) member generated by a segment that starts a fresh run —
+    under the side condition `cov` (F14): no explicit address on a NOBITS or empty member -/
+theorem memsz_covers (c : Cls) (hdrPhoff : BitVec 64) (phentsize phnum : BitVec 16)
+    (lay lay' : Layout) (g g' : Seg) (lo : Nat) (hinv : LayInv lo lay)
+    (hnw : segNW c hdrPhoff phentsize phnum lay g = true)
+    (hdom : segDom true false c hdrPhoff phentsize phnum lay g = true)
+    (h : layoutSegment c hdrPhoff phentsize phnum lay g = .ok (some (lay', g')))
+    (hfresh : segFresh lay g)
+    (k : Nat) (s' : SecBuf) (hng : lay.gen[k]? ≠ some true) (hg : lay'.gen[k]? = some true)
+    (hs : lay'.secs[k]? = some s') (hnn : s'.stype ≠ BitVec.ofNat 32 SHT_NULL) :
+    (s'.addr - g'.vaddr).toNat + s'.size.toNat ≤ g'.memsz.toNat :=
+  ((layoutSegment_dom true false c hdrPhoff phentsize phnum lay lay' g g' lo hinv hnw hdom h).2.2 hfresh).2.1
+    rfl k s' hng hg hs hnn
+
+/-- a file-occupying member generated by a segment that starts a fresh run lies inside the
+    segment's file range — under the side condition `ins`: no alignment gap before a NOBITS member -/
+theorem member_inside (c : Cls) (hdrPhoff : BitVec 64) (phentsize phnum : BitVec 16)
+    (lay lay' : Layout) (g g' : Seg) (lo : Nat) (hinv : LayInv lo lay)
+    (hnw : segNW c hdrPhoff phentsize phnum lay g = true)
+    (hdom : segDom false true c hdrPhoff phentsize phnum lay g = true)
+    (h : layoutSegment c hdrPhoff phentsize phnum lay g = .ok (some (lay', g')))
+    (hfresh : segFresh lay g)
+    (k : Nat) (s' : SecBuf) (hng : lay.gen[k]? ≠ some true) (hg : lay'.gen[k]? = some true)
+    (hs : lay'.secs[k]? = some s') (ho : s'.Occ) :
+    g'.offset.toNat ≤ s'.offset.toNat ∧ s'.endN ≤ g'.offset.toNat + g'.filesz.toNat :=
+  ((layoutSegment_dom false true c hdrPhoff phentsize phnum lay lay' g g' lo hinv hnw hdom h).2.2 hfresh).2.2
+    rfl k s' hng hg hs ho
+
+/-! ### concrete objects: non-vacuity, and the F14 witness -/
+
+def exHdr : Bytes := Hdr.create .c64 .lsb 1
+
+/-- null section, `.shstrtab`, `.text` (24 bytes, align 16) and `.data` (explicit address) in one
+    PT_LOAD, a loose symbol-table-like section -/
+def exObj : Obj :=
+  { cls := .c64, enc := .lsb, hdr := some exHdr,
+    secs := [ { SecBuf.fresh .c64 0 with index := 0 },
+              { SecBuf.fresh .c64 3 with index := 1, size := 17, addrAlign := 1 },
+              { SecBuf.fresh .c64 1 with index := 2, size := 24, addrAlign := 16, flags := 6 },
+              { SecBuf.fresh .c64 1 with index := 3, size := 10, addrAlign := 4, flags := 3,
+                                         addr := 0x401040, addrSet := true },
+              { SecBuf.fresh .c64 2 with index := 4, size := 48, addrAlign := 8 } ],
+    segs := [ { stype := 1, vaddr := 0x401000, align := 0x1000, secs := [2, 3], index := 0 } ] }
+
+/-- the layout succeeds and its result satisfies `p` -/
+def layoutIs (o : Obj) (h : Bytes) (p : LayoutRes → Bool) : Bool :=
+  match layoutOf o h with
+  | .ok (some r) => p r
+  | _ => false
+
+/-- the state in which the (only) segment of `exObj` is laid out -/
+def exLay0 : Layout := lay0Of exObj 120
+
+/-- `exObj` meets the hypotheses of `layout_disjoint` -/
+example : exObj.secs.length < 65536 ∧
+    (∀ (i : Nat) (s : SecBuf), exObj.secs[i]? = some s → s.Occ → s.index ≠ 0) ∧
+    layoutNW exObj exHdr = true := by
+  refine ⟨by decide, ?_, by decide⟩
+  intro i s hs ho hi
+  have : ∀ t ∈ exObj.secs, t.index = 0 → ¬ t.Occ := by decide
+  exact this s (List.mem_of_getElem? hs) hi ho
+
+/-- … and of the segment theorems, with all side conditions on; the segment starts a fresh run
+    (`64`, `56`, `1`, `120` are `e_phoff`, `e_phentsize`, `e_phnum` and the initial cursor of `exObj`) -/
+example :
+    layoutIs exObj exHdr (fun r => r.pos0 == 120 && Hdr.e_phoff .c64 .lsb r.hdr0 == 64 &&
+      Hdr.e_phentsize .c64 .lsb r.hdr0 == 56 && Hdr.e_phnum .c64 .lsb r.hdr0 == 1 &&
+      r.segs0.map (·.align) == [0x1000]) = true ∧
+    segNW .c64 64 56 1 exLay0 { stype := 1, vaddr := 0x401000, align := 0x1000, secs := [2, 3], index := 0 } = true ∧
+    segDom true true .c64 64 56 1 exLay0 { stype := 1, vaddr := 0x401000, align := 0x1000, secs := [2, 3], index := 0 } = true ∧
+    segFresh exLay0 { stype := 1, vaddr := 0x401000, align := 0x1000, secs := [2, 3], index := 0 } := by
+  refine ⟨by decide, by decide, by decide, by decide, by decide, 2, rfl, by decide⟩
+
+/-- F14: a PT_LOAD whose only member is a NOBITS section with the *explicit* address `vaddr + 0x24` -/
+def f14Obj : Obj :=
+  { cls := .c64, enc := .lsb, hdr := some exHdr,
+    secs := [ { SecBuf.fresh .c64 0 with index := 0 },
+              { SecBuf.fresh .c64 3 with index := 1, size := 11, addrAlign := 1 },
+              { SecBuf.fresh .c64 8 with index := 2, size := 0x12, addrAlign := 1, flags := 3,
+                                         addr := 0x400024, addrSet := true } ],
+    segs := [ { stype := 1, vaddr := 0x400000, align := 0x1000, secs := [2], index := 0 } ] }
+
+/-- does the memory size of every segment cover its SHF_ALLOC members? -/
+def coversAll (res : LayoutRes) : Bool :=
+  res.segs.all fun g => g.secs.all fun idx =>
+    match res.secs[idx.toNat]? with
+    | some s => (s.flags &&& 2 != 2) || decide ((s.addr - g.vaddr).toNat + s.size.toNat ≤ g.memsz.toNat)
+    | none => true
+
+/-- **F14, machine-checked**: `f14Obj` satisfies every hypothesis of `memsz_covers` except the side
+    condition `cov` (`segDom false …` holds, `segDom true …` does not), its layout succeeds without
+    wrap-around, and the resulting `p_memsz = 0x12` does not cover the member, which ends at
+    `vaddr + 0x36`.  (The well laid out `exObj` is covered.) -/
+theorem memsz_witness :
+    layoutNW f14Obj exHdr = true ∧
+    layoutIs f14Obj exHdr (fun r => !coversAll r) = true ∧
+    layoutIs f14Obj exHdr (fun r => r.segs.map (·.memsz) == [0x12#64]) = true ∧
+    segDom false true .c64 64 56 1 (lay0Of f14Obj 120)
+      { stype := 1, vaddr := 0x400000, align := 0x1000, secs := [2], index := 0 } = true ∧
+    segDom true true .c64 64 56 1 (lay0Of f14Obj 120)
+      { stype := 1, vaddr := 0x400000, align := 0x1000, secs := [2], index := 0 } = false ∧
+    layoutIs exObj exHdr coversAll = true := by
+  decide
+
 end ElfioVerif.C04
